@@ -207,6 +207,18 @@ func seqCall(r seqReq) any {
 		return ev
 	case "canon":
 		seq := unints(r.Seq)
+		// the same buffer held other content of the same length a moment ago (a read buffer that is filled again): a complete pass
+		// over that content first, then the buffer gets the content of this request
+		if len(seq) > 0 {
+			for i, c := range seq {
+				seq[i] = "CGTA"[(int(c)+i)%4]
+			}
+			catch(func() {
+				for range sequtil.CanonicalSubsequences(seq, r.K) {
+				}
+			})
+			copy(seq, unints(r.Seq))
+		}
 		items, p := collectCanon(seq, r.K)
 		return evCanon{Op: r.Op, Seq: nn(r.Seq), K: r.K, Panic: p, Items: items, SeqAfter: ints(seq)}
 	case "canonpair":
